@@ -97,6 +97,9 @@ class LiteralToken(RegexpBaseToken):
         super().__init__(*args, *kwargs)
 
         if self.value[2]:
+            if float(f'{self.value[2]}.{self.value[5] or 0}e{self.value[7] or 0}') == float('inf'):
+                raise E2PyclParserException('The number literal is too large')
+
             if self.value[5] or (self.value[7] and int(self.value[7]) < 0):
                 # the decimal text as a whole denotes the nearest double
                 real_value = float(f'{self.value[2]}.{self.value[5] or 0}e{self.value[7] or 0}')
